@@ -110,6 +110,8 @@ theorem decodeGlb_bound (b json : Bytes) (cs : List Bytes) (h : decodeGlb b = .o
   split at h
   · cases h
   split at h
+  · cases h
+  split at h
   · rename_i cs' hrec
     injection h with h
     injection h with hj hc
